@@ -95,6 +95,10 @@ pub fn first_panic(w: &World) -> Option<String> {
 
 /// normalised panic signature: message without numbers that vary
 pub fn panic_sig(msg: &str) -> String {
+    if msg.starts_with("VERIF-SPIN") {
+        // raised by the mock transport, not by the library: a loop that never yields
+        return "spins-after-transport-end".into();
+    }
     let m = msg.split(" @ ").next().unwrap_or(msg);
     let loc = msg.split(" @ ").nth(1).unwrap_or("");
     let file = loc.rsplit('/').next().unwrap_or(loc);
